@@ -50,7 +50,7 @@ pub fn resolve_instruction(
 
     // Check for stable resolution
     let is_stable =
-        Some(&instr.encoding) == maybe_chosen_encoding.as_ref();
+        maybe_chosen_encoding.as_ref().map_or(false, |e| e.is_identical(&instr.encoding));
 
 
     // Update the instruction's encoding if available
